@@ -3,7 +3,7 @@ ID = "C09"
 LEVEL = "proof"
 TAGS = ("C09",)
 CONTRACT_MODULES = ALL_CONTRACTS
-FUNCTIONS = HANDLER_FUNCS + [H + "planArc", H + "computeArcCenterOffsets", H + "handleAtCommand"] + MOTION_FUNCS + [S + "disableExclusion", S + "processExtendedGcode", S + "_processExtendedGcodeEntry", S + "_processPendingCommands"] + AXIS_FUNCS[1:4]
+FUNCTIONS = HANDLER_FUNCS + [H + "planArc", H + "computeArcCenterOffsets", H + "handleAtCommand"] + MOTION_FUNCS + [S + "disableExclusion", S + "processExtendedGcode", S + "_processExtendedGcodeEntry", S + "_processPendingCommands"] + AXIS_FUNCS[1:4] + ["GcodeParser.formatNumber"]
 ASSUMPTIONS = ["A1", "A2", "A3", "A4", "INDUCTION"]
 EXTRA_ASSUMPTIONS = ["'after the axes have been homed' = invariant I-type (all tracked positions known, consistent units), established by G28 and preserved by every handler",
                      "not reachable by this technique (stated gap): float overflow to inf/NaN (e.g. int(math.ceil(inf))), time and memory for astronomically long arcs",
